@@ -1,7 +1,7 @@
 (* Props/C09.v — Mandatory structure is enforced and the error names the culprit.
    Property theorems only. *)
 
-From SwiftMT Require Import Base.Bytes Engine.Layout Engine.Tokens Engine.Facts Engine.Instance.
+From SwiftMT Require Import Base.Bytes Engine.Layout Engine.Tokens Engine.Facts Engine.Instance Engine.Extract Engine.Factor Engine.FactorInstance.
 
 Lemma layout_dropfree : forall T L, In (T, L) all_layouts -> dropfree L = true.
 Proof.
@@ -40,7 +40,14 @@ Theorem C09_bad_content_optional : forall fparse fuel ty tag d r (s : st (list t
   texec fparse (S fuel) (SOpt ty tag d :: r) s = FReject _ (EBadField tag content).
 Proof. exact opt_badfield. Qed.
 
+(* the same for the byte cursor on a canonical text (see Props/C01.v) *)
+Theorem C09_rejection_names_culprit_bytes : forall T L, In (T, L) all_layouts ->
+  forall crlf fparse fuel w toks e, aws w = true -> forallb tok_ok toks = true ->
+  brun fparse fuel L (w ++ render crlf toks) = Reject e -> reject_ok fparse toks e.
+Proof. exact reject_sound_bytes. Qed.
+
 Print Assumptions C09_rejection_names_culprit.
 Print Assumptions C09_mandatory_missing.
 Print Assumptions C09_bad_content_mandatory.
 Print Assumptions C09_bad_content_optional.
+Print Assumptions C09_rejection_names_culprit_bytes.
